@@ -313,6 +313,27 @@ func (c *Ctx) foldSerialiser(r *Report, ser, render *ssa.Function, mode string) 
 			}
 		}
 	}
+	// the accumulated list text is handed on as it is: trimming it with a cutset (strings.Trim / TrimRight /
+	// TrimLeft) also removes characters that belong to the last (or first) member's own rendering
+	for _, f := range append([]*ssa.Function{ser}, c.serHelpers(ser, render)...) {
+		for _, b := range f.Blocks {
+			for _, in := range b.Instrs {
+				call, ok := in.(*ssa.Call)
+				if !ok {
+					continue
+				}
+				switch calleeFullName(call) {
+				case "strings.Trim", "strings.TrimRight", "strings.TrimLeft":
+				default:
+					continue
+				}
+				src := c.key(call.Call.Args[0], nil)
+				if strings.Contains(src, "(*strings.Builder).String") || strings.Contains(src, "strings.Join(") || strings.Contains(src, "(*bytes.Buffer).String") {
+					r.bad(rule, fmt.Sprintf("%s|serialiser|list-trim|%s", mode, calleeFullName(call)), c.instrPos(call), fmt.Sprintf("the %s serialiser trims the accumulated list text with %s and the cutset %s: a cutset removes every trailing (leading) character of that set, also those that belong to a member's own rendering, so the list function no longer receives the exact fold of its members", mode, calleeFullName(call), c.key(call.Call.Args[1], nil)))
+				}
+			}
+		}
+	}
 	n := 0
 	for _, cp := range cps {
 		rendered, appended := false, false
@@ -327,6 +348,12 @@ func (c *Ctx) foldSerialiser(r *Report, ser, render *ssa.Function, mode string) 
 				rkey = c.key(call, nil) + "#0"
 			}
 			if bi, ok := call.Call.Value.(*ssa.Builtin); ok && bi.Name() == "append" && rendered {
+				if strings.Contains(c.key(call.Call.Args[1], nil), rkey) {
+					appended = true
+				}
+			}
+			// … or written into the builder that accumulates the list text
+			if name := calleeFullName(call); rendered && (name == "(*strings.Builder).WriteString" || name == "(*bytes.Buffer).WriteString") && len(call.Call.Args) == 2 {
 				if strings.Contains(c.key(call.Call.Args[1], nil), rkey) {
 					appended = true
 				}
@@ -424,4 +451,20 @@ func ruleTABLEKEYS(c *Ctx, r *Report) {
 	}
 	r.floor(rule, "Shared entries", len(pt.Shared.Entries), 17)
 	r.floor(rule, "postgres table entries", len(pt.Eff), 17)
+}
+
+// serHelpers: methods of the driver that the serialiser calls and that call the renderer (the element loop
+// may sit in one of them).
+func (c *Ctx) serHelpers(ser, render *ssa.Function) []*ssa.Function {
+	var out []*ssa.Function
+	for _, b := range ser.Blocks {
+		for _, in := range b.Instrs {
+			if call, ok := in.(*ssa.Call); ok {
+				if h := call.Call.StaticCallee(); h != nil && h != ser && h != render && fnPkgPath(h) == pkgDriver && len(h.Blocks) > 0 && c.calls(h, render) {
+					out = append(out, h)
+				}
+			}
+		}
+	}
+	return out
 }
